@@ -111,7 +111,9 @@ def run(ck):
             if prog is None:
                 continue
             t = trace_to_coq(res["trace"])
-            term = f"let t := {t} in enc_replay_diag {enc} (run_trace ({prog}) t 0) ++ ((-7)%Z :: trace_balance t)"
+            # trace_fresh: the premise of C11_sound_on_traces (the kernel never returned a number the operation was holding)
+            term = (f"let t := {t} in enc_replay_diag {enc} (run_trace ({prog}) t 0) ++ ((-7)%Z :: trace_balance t) ++ "
+                    f"[(if trace_fresh t [] then 1 else 0)%Z]")
             cases.append((len(cases), term, job, res, tag))
     if ck.proof_broken:
         evals, cerrs = {}, []
@@ -126,7 +128,11 @@ def run(ck):
         if enc is None:
             continue
         cut = enc.index(-7)
-        rep, bal = enc[:cut], enc[cut + 1:]
+        rep, bal, fresh_ok = enc[:cut], enc[cut + 1:-1], enc[-1]
+        if fresh_ok != 1:
+            ck.violation("C11: the recorded trace shows the kernel returning a descriptor number the operation was holding "
+                         "(the freshness premise of the balance theorems does not hold of this run)",
+                         {"job": J.describe(job), "deny": tag, "outcome": res.get("res")}, False)
         r = res["res"]
         want = [r["ok"]["fd"]] if "ok" in r else []
         # trace_balance: descriptors opened and not closed inside the trace, and closes of foreign descriptors
